@@ -21,6 +21,7 @@ func propC06(w *World, r *Report) {
 	RunScratchDiscipline(w, r)
 	RunTextAppend(w, r)
 	RunFlagPrecedence(w, r)
+	RunFlagClass(w, r)
 	RunLookaheadBound(w, r)
 	RunMarkAdvance(w, r)
 	var gt []*ssa.Function
